@@ -609,8 +609,10 @@ def main(argv):
         wall_s=round(time.time() - t_start, 2),
         violations=len(violations),
     )
-    os.makedirs(os.path.join(VERIF, "evidence"), exist_ok=True)
-    json.dump(ev, open(os.path.join(VERIF, "evidence", f"{prop}.json"), "w"), indent=1)
+    # evidence describes a run against /repo itself; development runs against a scratch copy (--repo DIR) write theirs next to the replays
+    ev_dir = os.path.join(VERIF, "evidence") if os.path.realpath(args.repo) == "/repo" else os.path.join(VERIF, "replays", "evidence-scratch")
+    os.makedirs(ev_dir, exist_ok=True)
+    json.dump(ev, open(os.path.join(ev_dir, f"{prop}.json"), "w"), indent=1)
     log(f"{prop}: tier={args.tier} units={[u['name'] for u in my_units]} obligations={obligations} discharged={ev['coverage']['discharged']} "
         f"functions_under_contract={n_fns} vacuity_ok={n_vac} kani_checks={k_oblig} wall={ev['wall_s']}s exit={exit_code}")
     return exit_code
